@@ -3,9 +3,9 @@
 package kcp
 
 import (
-	"io"
 	"bytes"
 	"fmt"
+	"io"
 	"strings"
 	"time"
 
@@ -190,7 +190,9 @@ func vfC09(c *hx.Ctx) {
 // interleaving of 3 threads x 2 draws (preemption bound, with an extra scheduling point after every Unlock so that code
 // which touches the generator's state after releasing its lock is exposed) — all draws must be distinct, for both
 // generator implementations and for fillRand on the package-level source.
-func vfC09EntropyConcurrent(c *hx.Ctx) { vfEntropyConcurrent(c, "C09:entropy-repeats:concurrent-draws") }
+func vfC09EntropyConcurrent(c *hx.Ctx) {
+	vfEntropyConcurrent(c, "C09:entropy-repeats:concurrent-draws")
+}
 
 // vfEntropyConcurrent is shared by C09 (nonce freshness) and C14 (the generator state is shared mutable state: an access
 // outside its lock is a data race even where ThreadSanitizer cannot see it because the other access is in assembly).
@@ -519,7 +521,7 @@ func vfC10(c *hx.Ctx) {
 	classes := []struct {
 		ciph   string
 		ds, ps int
-	}{{"", 0, 0}, {"aes-128", 0, 0}, {"aes-gcm", 0, 0}, {"", 2, 1}, {"aes-128", 3, 2}, {"aes-gcm", 1, 1}}
+	}{{"", 0, 0}, {"aes-128", 0, 0}, {"aes-gcm", 0, 0}, {"", 2, 1}, {"aes-128", 3, 2}, {"aes-gcm", 1, 1}, {"aes-gcm", 2, 1}}
 	per = (len(classes) + max(c.Of, 1) - 1) / max(c.Of, 1)
 	for _, cl := range classes {
 		cf := vfPairCfg{Cipher: cl.ciph, DS: cl.ds, PS: cl.ps, SDS: -1, Stream: true, NoDelay: [4]int{1, 10, 2, 1}, Writes: []int{1300, 1300, 700, 3100}, ReadBuf: 4096,
@@ -535,10 +537,21 @@ func vfC10(c *hx.Ctx) {
 		}
 		alpha := append([]int{}, vfMtuAlphabet...)
 		alpha = append(alpha, 24+overhead, 25+overhead, 26+overhead, 100+overhead, 1000)
+		// just below the datagram a 1300-byte write makes (a parity packet is as long as the longest packet of its group)
+		big := 1300 + IKCP_OVERHEAD + overhead
+		alpha = append(alpha, big-1, big-16, big-17)
 		body := func(p *vfPair) {
 			v := alpha[vrt.Choose(len(alpha), "mtu value")]
-			pos := vrt.Choose(5, "position")
+			npos := 5
+			if cl.ds >= 2 {
+				npos = 6 // an FEC group can only stay open with two or more data shards
+			}
+			pos := vrt.Choose(npos, "position")
 			nsmall := 0
+			openGroup := pos == 5 // like 4 without the idle gap: the FEC group of the large write may still be open at the MTU change
+			if openGroup {
+				pos = 4
+			}
 			if pos == 4 {
 				nsmall = vrt.Choose(3, "small writes before the idle gap")
 			}
@@ -550,6 +563,11 @@ func vfC10(c *hx.Ctx) {
 				// datagrams the core produced before the call and that are still in the transmit pipeline were built
 				// under the old MTU: they are exempt ("honoured from then on")
 				pipeline := (p.client.chPostProcessing.Len() + 1) * (1 + cl.ps)
+				if pos == 4 && queued == 0 {
+					// 150 ms after the last write, everything acknowledged: the pipeline goroutine is idle, nothing is exempt — in
+					// particular not the parity packet of a group that is still open, which the next write completes
+					pipeline = p.client.chPostProcessing.Len() * (1 + cl.ps)
+				}
 				ok := false
 				func() {
 					defer func() {
@@ -595,9 +613,11 @@ func vfC10(c *hx.Ctx) {
 						sizes = append(sizes, 20)
 					}
 					p.writer(p.client, 0, sizes, &cw)
-					vrt.Sleep(700 * time.Millisecond)
-					sizes = append(sizes, 21)
-					p.writer2(p.client, 0, sizes, len(sizes)-1, &cw)
+					if !openGroup {
+						vrt.Sleep(700 * time.Millisecond)
+						sizes = append(sizes, 21)
+						p.writer2(p.client, 0, sizes, len(sizes)-1, &cw)
+					}
 					vrt.Sleep(150 * time.Millisecond)
 					setMtu()
 					n0 := len(sizes)
@@ -669,10 +689,11 @@ func vfC10(c *hx.Ctx) {
 			wg.Wait()
 			p.teardown()
 		}
-		c.UnitBudget = left / time.Duration(max(per, 1))
+		c.UnitBudget = max(left, time.Until(c.Deadline)-12*time.Second) / time.Duration(max(per, 1)) // what part (i) left unused is available here
 		pr := vfPairParams(cf, 0)
 		pr["mtu_alphabet"], pr["positions"] = alpha, []string{"before traffic", "after two writes (queued / in flight)", "7ms into the transfer (concurrently)", "after all writes",
-			"after a large write, 0-2 small writes, a 700ms idle gap, one more write, everything acknowledged; followed by a burst of small writes"}
+			"after a large write, 0-2 small writes, a 700ms idle gap, one more write, everything acknowledged; followed by a burst of small writes",
+			"after a large write and 0-2 small writes, everything acknowledged, the FEC group possibly still open; followed by a burst of small writes"}
 		c.Explore(fmt.Sprintf("setmtu-session/cipher=%s/fec=%d,%d", cl.ciph, cl.ds, cl.ps), pr, 0, vfPairRun(cf, 0, body))
 	}
 	// raw core: SetMtu for any int, at every position of a core-pair history
